@@ -85,12 +85,12 @@ class ConstEval:
             return v
         return None
 
-    def run(self, fn, args, stop_at=None, max_steps=20000, gmem=None, call_hook=None):
+    def run(self, fn, args, stop_at=None, max_steps=20000, gmem=None, call_hook=None, objs=None):
         """interpret fn with concrete int args (None = unknown). returns dict(ret=value, events=[(kind, ins, data)], objects={})"""
         env = {}
         for (t, n), a in zip(fn.params, args):
             env[n] = a
-        objects = {}
+        objects = {k_: dict(v_) for k_, v_ in (objs or {}).items()}     # caller-provided arrays: {id: {(index,): value}}; pass ('obj', id, ()) as argument
         events = []
         gmem = dict(gmem or {})
         b, prev = fn.entry, None
@@ -167,6 +167,8 @@ class ConstEval:
                         env[ins.res] = ('obj', base[1], ('byte', idx[0]))      # byte view of a local scalar
                     elif isinstance(base, tuple) and base[0] in ('g', 'obj') and all(isinstance(i, int) for i in idx):
                         path = list(base[2])
+                        if base[0] == 'obj' and not path and len(idx) == 1 and any(len(k_) == 1 and isinstance(k_[0], int) for k_ in objects.get(base[1], {})):
+                            path = [0]                 # pointer to the first element of a caller-provided array
                         if idx[0] != 0:
                             if path:
                                 path[-1] += idx[0]
@@ -190,7 +192,8 @@ class ConstEval:
                         else:
                             events.append(('oob', ins, (p[1], p[2]))); env[ins.res] = None
                     elif isinstance(p, tuple) and p[0] == 'obj':
-                        env[ins.res] = objects.get(p[1], {}).get(p[2])
+                        o_ = objects.get(p[1], {})
+                        env[ins.res] = o_.get(p[2], o_.get((0,)) if p[2] == () else None)
                     elif isinstance(p, tuple) and p[0] == 'null':
                         events.append(('null-deref', ins, None)); env[ins.res] = None
                     else:
@@ -204,11 +207,12 @@ class ConstEval:
                     if isinstance(p, tuple) and p[0] == 'g' and p[2] == ():
                         gmem[p[1]] = val(ins.ops[0])
                     if isinstance(p, tuple) and p[0] == 'obj':
-                        objects.setdefault(p[1], {})[p[2]] = val(ins.ops[0])
+                        o_ = objects.setdefault(p[1], {})
+                        o_[(0,) if p[2] == () and (0,) in o_ else p[2]] = val(ins.ops[0])
                     events.append(('store', ins, (p, val(ins.ops[0]))))
                 elif op == 'call':
                     if stop_at and ins.callee in stop_at:
-                        events.append(('stop', ins, [val(o) for o in ins.ops]))
+                        events.append(('stop', ins, [val(o) for o in ins.ops], {k_: dict(v_) for k_, v_ in objects.items()}))
                     if ins.callee in ('@malloc', '@calloc'):
                         oid = f'obj{len(objects)}'
                         objects[oid] = {}
